@@ -1,3 +1,4 @@
+import Std.Data.String.ToNat
 import PteraModel.Model.PyRun
 /-!
 # Simulation, part 1: the relation between a state of the rewritten function and a state of the
@@ -42,6 +43,8 @@ structure Ctx (W HS : Type) where
   scI : String → Bool
   scR : String → Bool
   fuel : Nat
+  /-- temporaries of the rewritten function whose value is known at this point of the argument -/
+  pin : String → Option Val := fun _ => none
 
 def Ctx.envI (c : Ctx W HS) : Env W HS := { host := c.host, sc := c.scI, hk := none }
 def Ctx.envR (c : Ctx W HS) : Env W HS := { host := c.host, sc := c.scR, hk := some c.cfg }
@@ -61,6 +64,19 @@ structure LibSpec (c : Ctx W HS) : Prop where
     ∧ (∀ x w, c.host.getitem g (.str x) w = (.ok ((c.host.glob x).getD .absent), w))
     ∧ (∀ x w, c.host.binop "In" (.str x) g w = (.ok (.bool (c.host.glob x).isSome), w))
   truthyBool : ∀ b w, c.host.truthy (.bool b) w = (.ok b, w)
+  temps : ∀ n, c.scI (gensym n) = true
+
+theorem isUser_gensym (n : Nat) : isUser (gensym n) = false := by
+  unfold isUser gensym
+  simp
+
+theorem gensym_inj {m n : Nat} (h : gensym m = gensym n) : m = n := by
+  unfold gensym at h
+  exact Nat.repr_injective ((String.append_right_inj _).1 h)
+
+theorem isTemp_gensym (n : Nat) : isTemp (gensym n) = true := by
+  unfold isTemp gensym
+  simp
 
 /-- the two states agree on everything but ptera's own variables -/
 structure Rel (c : Ctx W HS) (st' st : St W HS) : Prop where
@@ -71,6 +87,7 @@ structure Rel (c : Ctx W HS) (st' st : St W HS) : Prop where
   cur : st'.cur = st.cur
   closed : st'.closed = st.closed
   loc : ∀ x, isUser x = true → lookupV c.envI st' x = lookupV c.envR st x
+  pin : ∀ x v, c.pin x = some v → isUser x = false ∧ st'.loc x = some v
 
 
 theorem lookupV_upd_ne (env : Env W HS) (st : St W HS) (x y : String) (v : Option Val) (h : y ≠ x)
@@ -95,10 +112,13 @@ theorem Rel.congr {c : Ctx W HS} {st' st : St W HS} (h : Rel c st' st) (st2' st2
     (hl' : st2'.loc = st'.loc) (hl : st2.loc = st.loc) (hw : st2'.w = st2.w) (hhs : st2'.hs = st2.hs)
     (hinp : st2'.inp = st2.inp) (hout : st2'.out = st2.out) (hcur : st2'.cur = st2.cur)
     (hcl : st2'.closed = st2.closed) : Rel c st2' st2 := by
-  refine ⟨hw, hhs, hinp, hout, hcur, hcl, ?_⟩
-  intro x hx
-  rw [lookupV_same_loc c.envI st' st2' hl' x, lookupV_same_loc c.envR st st2 hl x]
-  exact h.loc x hx
+  refine ⟨hw, hhs, hinp, hout, hcur, hcl, ?_, ?_⟩
+  · intro x hx
+    rw [lookupV_same_loc c.envI st' st2' hl' x, lookupV_same_loc c.envR st st2 hl x]
+    exact h.loc x hx
+  · intro x v hp
+    rw [hl']
+    exact h.pin x v hp
 
 /-- a name both sides treat as a local variable -/
 def Ctx.scoped (c : Ctx W HS) (x : String) : Prop := c.scI x = true ∧ c.scR x = true
@@ -151,7 +171,7 @@ theorem isUser_frame : isUser nFrame = false := by decide
 theorem relM_setLoc (c : Ctx W HS) (x : String) (v : Option Val) (hs : c.scoped x) (hx : isUser x = true) :
     RelM c (setLoc x v) (setLoc x v) := by
   intro st' st h
-  refine ⟨rfl, ⟨h.w, h.hs, h.inp, h.out, h.cur, h.closed, ?_⟩⟩
+  refine ⟨rfl, ⟨h.w, h.hs, h.inp, h.out, h.cur, h.closed, ?_, ?_⟩⟩
   · intro y hy
     by_cases hyx : y = x
     · subst hyx
@@ -162,18 +182,98 @@ theorem relM_setLoc (c : Ctx W HS) (x : String) (v : Option Val) (hs : c.scoped 
       unfold setLoc
       rw [lookupV_upd_ne c.envI st' x y v hyx, lookupV_upd_ne c.envR st x y v hyx]
       exact h.loc y hy
+  · intro y u hp
+    obtain ⟨hu, hl⟩ := h.pin y u hp
+    have hyx : y ≠ x := by intro he; rw [he, hx] at hu; exact absurd hu (by decide)
+    refine ⟨hu, ?_⟩
+    show (if y = x then v else st'.loc y) = some u
+    rw [if_neg hyx]; exact hl
 
 /-- the rewritten function binds one of ptera's own variables: invisible to the reference side -/
 theorem rel_setLoc_left (c : Ctx W HS) (x : String) (v : Option Val) (hx : isUser x = false)
-    {st' st : St W HS} (h : Rel c st' st) :
+    (hnp : c.pin x = none) {st' st : St W HS} (h : Rel c st' st) :
     Rel c ((setLoc x v : M W HS Unit) st').2 st := by
-  refine ⟨h.w, h.hs, h.inp, h.out, h.cur, h.closed, ?_⟩
+  refine ⟨h.w, h.hs, h.inp, h.out, h.cur, h.closed, ?_, ?_⟩
   · intro y hy
     have hyx : y ≠ x := by intro he; rw [he, hx] at hy; exact absurd hy (by decide)
     show lookupV c.envI _ y = lookupV c.envR st y
     unfold setLoc
     rw [lookupV_upd_ne c.envI st' x y v hyx]
     exact h.loc y hy
+  · intro y u hp
+    obtain ⟨hu, hl⟩ := h.pin y u hp
+    have hyx : y ≠ x := by intro he; rw [he, hnp] at hp; exact absurd hp (by simp)
+    refine ⟨hu, ?_⟩
+    show (if y = x then v else st'.loc y) = some u
+    rw [if_neg hyx]; exact hl
+
+/-! ## pinned temporaries -/
+
+/-- the same context, knowing that the temporary `x` holds `v` -/
+def Ctx.pinned (c : Ctx W HS) (x : String) (v : Val) : Ctx W HS :=
+  { c with pin := fun y => if y = x then some v else c.pin y }
+
+@[simp] theorem pinned_envI (c : Ctx W HS) (x : String) (v : Val) : (c.pinned x v).envI = c.envI := rfl
+@[simp] theorem pinned_envR (c : Ctx W HS) (x : String) (v : Val) : (c.pinned x v).envR = c.envR := rfl
+@[simp] theorem pinned_cfg (c : Ctx W HS) (x : String) (v : Val) : (c.pinned x v).cfg = c.cfg := rfl
+@[simp] theorem pinned_fuel (c : Ctx W HS) (x : String) (v : Val) : (c.pinned x v).fuel = c.fuel := rfl
+@[simp] theorem pinned_host (c : Ctx W HS) (x : String) (v : Val) : (c.pinned x v).host = c.host := rfl
+
+theorem pinned_scoped (c : Ctx W HS) (x : String) (v : Val) (y : String) : (c.pinned x v).scoped y ↔ c.scoped y :=
+  Iff.rfl
+
+theorem pinned_pin_self (c : Ctx W HS) (x : String) (v : Val) : (c.pinned x v).pin x = some v := by
+  simp [Ctx.pinned]
+
+theorem pinned_pin_ne (c : Ctx W HS) (x : String) (v : Val) (y : String) (h : y ≠ x) :
+    (c.pinned x v).pin y = c.pin y := by
+  simp [Ctx.pinned, h]
+
+def LibSpec.pinned {c : Ctx W HS} (lib : LibSpec c) (x : String) (v : Val) : LibSpec (c.pinned x v) where
+  errorLocal := lib.errorLocal
+  libGlobal := lib.libGlobal
+  absent := lib.absent
+  key := lib.key
+  suspend := lib.suspend
+  resume := lib.resume
+  baseExc := lib.baseExc
+  nameErr := lib.nameErr
+  frame := lib.frame
+  globals := lib.globals
+  truthyBool := lib.truthyBool
+  temps := lib.temps
+
+/-- binding a temporary and going on, knowing what it holds -/
+theorem relX_pin (c : Ctx W HS) (x : String) (hx : isUser x = false) (hnp : c.pin x = none) (v : Val)
+    {k' k : Exec W HS} (hk : RelX (c.pinned x v) k' k) :
+    RelX c (stepM (setLoc x (some v)) fun _ => k') k := by
+  intro st' st h
+  have h1 : Rel (c.pinned x v) ((setLoc x (some v) : M W HS Unit) st').2 st := by
+    have h0 := rel_setLoc_left c x (some v) hx hnp h
+    refine ⟨h0.w, h0.hs, h0.inp, h0.out, h0.cur, h0.closed, h0.loc, ?_⟩
+    intro y u hp
+    by_cases hyx : y = x
+    · subst hyx
+      rw [pinned_pin_self] at hp
+      injection hp with hp
+      subst hp
+      exact ⟨hx, by show (if y = y then some v else st'.loc y) = some v; simp⟩
+    · rw [pinned_pin_ne c x v y hyx] at hp
+      exact h0.pin y u hp
+  have h2 := hk _ _ h1
+  refine ⟨h2.1, ⟨h2.2.w, h2.2.hs, h2.2.inp, h2.2.out, h2.2.cur, h2.2.closed, h2.2.loc, ?_⟩⟩
+  intro y u hp
+  have hyx : y ≠ x := by intro he; rw [he, hnp] at hp; exact absurd hp (by simp)
+  exact h2.2.pin y u (by rw [pinned_pin_ne c x v y hyx]; exact hp)
+
+/-- reading a temporary whose value is known -/
+theorem relM_lookup_pin (c : Ctx W HS) (x : String) (v : Val) (hp : c.pin x = some v) (hsc : c.scI x = true) :
+    RelM c (lookup c.envI x) (pure v) := by
+  intro st' st h
+  have hl := (h.pin x v hp).2
+  unfold lookup lookupV
+  simp only [Ctx.envI, hsc, if_true, hl]
+  exact ⟨rfl, h⟩
 
 theorem interactSem_env (c : Ctx W HS) (name : String) (key ann value : Val) (ovr : Bool) :
     interactSem c.envI name key ann value ovr = interactSem c.envR name key ann value ovr := rfl
@@ -211,6 +311,19 @@ theorem relX_stepM {α} (c : Ctx W HS) {m' m : M W HS α} {k' k : α → Exec W 
   cases r' with
   | ok a => exact hk a st1' st1 hrel
   | err e => exact ⟨rfl, hrel⟩
+
+/-- a step of the rewritten function whose outcome is known (reading a pinned temporary, a library call) -/
+theorem relX_stepM_pin {α} (c : Ctx W HS) {m' : M W HS α} {a : α} {k' : α → Exec W HS} {k : Exec W HS}
+    (hm : RelM c m' (pure a)) (hk : RelX c (k' a) k) : RelX c (stepM m' k') k := by
+  intro st' st h
+  have h1 := hm st' st h
+  unfold stepM
+  rcases hm' : m' st' with ⟨r', st1'⟩
+  rw [hm'] at h1
+  simp only [pure_def_M] at h1
+  obtain ⟨hr, hrel⟩ := h1
+  subst hr
+  exact hk st1' st hrel
 
 theorem relX_seqX (c : Ctx W HS) {a' a b' b : Exec W HS} (ha : RelX c a' a) (hb : RelX c b' b) :
     RelX c (seqX a' b') (seqX a b) := by
@@ -366,13 +479,17 @@ theorem relX_inHandler (c : Ctx W HS) (e : Val) (name : Option String) {b' b : E
     simp only
     have h0 : Rel c { st' with cur := e :: st'.cur, loc := fun y => if y = n then some e else st'.loc y }
         { st with cur := e :: st.cur, loc := fun y => if y = n then some e else st.loc y } := by
-      refine ⟨h.w, h.hs, h.inp, h.out, by simp [h.cur], h.closed, ?_⟩
+      refine ⟨h.w, h.hs, h.inp, h.out, by simp [h.cur], h.closed, ?_, ?_⟩
       · intro y hy
         by_cases hyn : y = n
         · subst hyn
           rw [lookupV_upd_eq c.envI st' y (some e) hsc.1, lookupV_upd_eq c.envR st y (some e) hsc.2]
         · rw [lookupV_upd_ne c.envI st' n y (some e) hyn, lookupV_upd_ne c.envR st n y (some e) hyn]
           exact h.loc y hy
+      · intro y u hp
+        obtain ⟨hyu, hl⟩ := h.pin y u hp
+        have hyn : y ≠ n := by intro he; rw [he, hu] at hyu; exact absurd hyu (by decide)
+        exact ⟨hyu, by simp only [if_neg hyn]; exact hl⟩
     have h1 := hb _ _ h0
     rcases ha' : b' { st' with cur := e :: st'.cur, loc := fun y => if y = n then some e else st'.loc y } with ⟨k', st1'⟩
     rcases ha0 : b { st with cur := e :: st.cur, loc := fun y => if y = n then some e else st.loc y } with ⟨k, st1⟩
@@ -380,12 +497,16 @@ theorem relX_inHandler (c : Ctx W HS) (e : Val) (name : Option String) {b' b : E
     simp only at h1
     obtain ⟨hr, hrel⟩ := h1
     subst hr
-    refine ⟨rfl, ⟨hrel.w, hrel.hs, hrel.inp, hrel.out, by simp [hrel.cur], hrel.closed, ?_⟩⟩
+    refine ⟨rfl, ⟨hrel.w, hrel.hs, hrel.inp, hrel.out, by simp [hrel.cur], hrel.closed, ?_, ?_⟩⟩
     · intro y hy
       by_cases hyn : y = n
       · subst hyn
         rw [lookupV_upd_eq c.envI st1' y none hsc.1, lookupV_upd_eq c.envR st1 y none hsc.2]
       · rw [lookupV_upd_ne c.envI st1' n y none hyn, lookupV_upd_ne c.envR st1 n y none hyn]
         exact hrel.loc y hy
+    · intro y u hp
+      obtain ⟨hyu, hl⟩ := hrel.pin y u hp
+      have hyn : y ≠ n := by intro he; rw [he, hu] at hyu; exact absurd hyu (by decide)
+      exact ⟨hyu, by simp only [if_neg hyn]; exact hl⟩
 
 end Ptera.Sem
